@@ -696,6 +696,238 @@ Section Frames.
              | H : do_flush _ _ = _ |- _ => apply fused_do_flush in H
              end; congruence.
   Qed.
+
+  (* the request-queue side (and the oneshot slots): cancel queue and in-flight tables untouched *)
+  Record QFrame s s' : Prop := {
+    qf_i : IFrame s s';
+    qf_cancels : cancels s' = cancels s;
+    qf_inflight : inflight s' = inflight s;
+    qf_timers : timers s' = timers s }.
+  Lemma QFrame_refl s : QFrame s s.
+  Proof. constructor; [apply IFrame_refl|reflexivity..]. Qed.
+  Lemma QFrame_trans s1 s2 s3 : QFrame s1 s2 -> QFrame s2 s3 -> QFrame s1 s3.
+  Proof. intros [] []; constructor; [eapply IFrame_trans; eassumption|congruence..]. Qed.
+  Lemma QFrame_upd_calls s v : QFrame s (upd_calls s v).
+  Proof. repeat (constructor; try reflexivity). Qed.
+  Lemma QFrame_upd_q s p q w c : QFrame s (upd_q s p q w c).
+  Proof. repeat (constructor; try reflexivity). Qed.
+  Lemma QFrame_upd_slots s v : QFrame s (upd_slots s v).
+  Proof. repeat (constructor; try reflexivity). Qed.
+  Lemma QFrame_set_phase s i p : QFrame s (set_phase s i p).
+  Proof. unfold set_phase. destruct (nth_error _ _); [apply QFrame_upd_calls|apply QFrame_refl]. Qed.
+  Lemma QFrame_set_slot s id x : QFrame s (set_slot s id x).
+  Proof. apply QFrame_upd_slots. Qed.
+  Lemma QFrame_slot_send s id o : QFrame s (slot_send s id o).
+  Proof. unfold slot_send. destruct (sl_rx_closed _); apply QFrame_set_slot. Qed.
+  Lemma QFrame_slot_tx_drop s id : QFrame s (slot_tx_drop s id).
+  Proof. apply QFrame_set_slot. Qed.
+  Lemma QFrame_slot_rx_close s id : QFrame s (slot_rx_close s id).
+  Proof. apply QFrame_set_slot. Qed.
+  Lemma QFrame_release_permit s : QFrame s (release_permit s).
+  Proof.
+    unfold release_permit. destruct (waiters s); [apply QFrame_upd_q|].
+    eapply QFrame_trans; [apply QFrame_upd_q|apply QFrame_set_phase].
+  Qed.
+  Lemma QFrame_q_poll_recv s : QFrame s (snd (q_poll_recv s)).
+  Proof.
+    unfold q_poll_recv. destruct (queue s).
+    - destruct (Nat.eqb _ _); [apply QFrame_refl|]. destruct (_ && _); apply QFrame_refl.
+    - cbn [snd]. eapply QFrame_trans; [apply QFrame_upd_q|apply QFrame_release_permit].
+  Qed.
+  Lemma QFrame_next_request_loop f s : QFrame s (snd (next_request_loop f s)).
+  Proof.
+    revert s; induction f as [|f IH]; intro s; cbn [next_request_loop]; [apply QFrame_refl|].
+    pose proof (QFrame_q_poll_recv s) as H. destruct (q_poll_recv s) as [r s1]. cbn [snd] in H.
+    destruct r as [q| |]; try exact H.
+    destruct (sl_rx_closed _); [|exact H].
+    eapply QFrame_trans; [exact H|]. eapply QFrame_trans; [apply QFrame_slot_tx_drop|apply IH].
+  Qed.
+  Lemma QFrame_fold_set_phase p (l : list nat) s :
+    QFrame s (fold_left (fun acc w => set_phase acc w p) l s).
+  Proof.
+    revert s; induction l as [|x r IH]; intro s; cbn [fold_left]; [apply QFrame_refl|].
+    eapply QFrame_trans; [apply QFrame_set_phase|apply IH].
+  Qed.
+  Lemma QFrame_q_close s : QFrame s (q_close s).
+  Proof.
+    unfold q_close. destruct (rx_closed s); [apply QFrame_refl|].
+    eapply QFrame_trans; [apply QFrame_fold_set_phase|apply QFrame_upd_q].
+  Qed.
+  Lemma QFrame_drain_loop f a s : QFrame s (snd (drain_loop f a s)).
+  Proof.
+    revert s; induction f as [|f IH]; intro s; cbn [drain_loop]; [apply QFrame_refl|].
+    pose proof (QFrame_q_poll_recv s) as H. destruct (q_poll_recv s) as [r s1]. cbn [snd] in H.
+    destruct r as [q| |]; try exact H.
+    eapply QFrame_trans; [exact H|]. eapply QFrame_trans; [apply QFrame_slot_send|apply IH].
+  Qed.
+
+  (* queue lengths along the two dequeue loops *)
+  Lemma queue_release_permit s : queue (release_permit s) = queue s.
+  Proof.
+    unfold release_permit. destruct (waiters s); [reflexivity|].
+    unfold set_phase. destruct (nth_error _ _); reflexivity.
+  Qed.
+  Lemma queue_q_poll_recv s r s' : q_poll_recv s = (r, s') ->
+    match r with RvSome _ => S (length (queue s')) = length (queue s) | _ => s' = s end.
+  Proof.
+    unfold q_poll_recv. destruct (queue s) eqn:Q.
+    - destruct (Nat.eqb _ _); [intros [= <- <-]; reflexivity|].
+      destruct (_ && _); intros [= <- <-]; reflexivity.
+    - intros [= <- <-]. rewrite queue_release_permit. reflexivity.
+  Qed.
+  Lemma queue_slot_tx_drop s id : queue (slot_tx_drop s id) = queue s.
+  Proof. reflexivity. Qed.
+  Lemma queue_next_request_loop f s r s' : next_request_loop f s = (r, s') ->
+    (length (queue s') + (if is_psome r then 1 else 0) <= length (queue s))%nat.
+  Proof.
+    revert s; induction f as [|f IH]; intro s; cbn [next_request_loop];
+      [intros [= <- <-]; cbn; lia|].
+    destruct (q_poll_recv s) as [x s1] eqn:E. apply queue_q_poll_recv in E.
+    destruct x as [q| |]; try (intros [= <- <-]; subst s1; cbn; lia).
+    destruct (sl_rx_closed _).
+    - intro H. apply IH in H. rewrite queue_slot_tx_drop in H. lia.
+    - intros [= <- <-]. cbn. lia.
+  Qed.
+  Lemma cancels_next_cancel_loop f s r s' : next_cancel_loop f s = (r, s') ->
+    (length (cancels s') + (if is_psome r then 1 else 0) <= length (cancels s))%nat.
+  Proof.
+    revert s; induction f as [|f IH]; intro s; cbn [next_cancel_loop];
+      [intros [= <- <-]; cbn; lia|].
+    unfold c_poll_recv. destruct (cancels s) as [|id rest] eqn:Q.
+    - destruct (Nat.eqb _ _); intros [= <- <-]; rewrite Q; cbn; lia.
+    - pose proof (TFrame_cancel_request (upd_cancels s rest) id) as F.
+      destruct (cancel_request _ id) as [[e|] s2]; cbn [snd] in F.
+      + intros [= <- <-]. rewrite (tf_cancels _ _ F). cbn. lia.
+      + intro H. apply IH in H. rewrite (tf_cancels _ _ F) in H. cbn in *. lia.
+  Qed.
+
+  (* ---------------------------------------------------------------- the user side *)
+  (* what no op other than PollDispatch / DropDispatch changes *)
+  Record UFrame s s' : Prop := {
+    uf_terminal : terminal s' = terminal s;
+    uf_finished : finished s' = finished s;
+    uf_dropped : dropped s' = dropped s;
+    uf_maxif : max_if s' = max_if s;
+    uf_qcap : q_cap s' = q_cap s;
+    uf_inflight : inflight s' = inflight s;
+    uf_timers : timers s' = timers s;
+    uf_fused : fused s' = fused s;
+    uf_plog : plog s' = plog s }.
+  Lemma UFrame_refl s : UFrame s s.
+  Proof. constructor; reflexivity. Qed.
+  Lemma UFrame_trans s1 s2 s3 : UFrame s1 s2 -> UFrame s2 s3 -> UFrame s1 s3.
+  Proof. intros [] []; constructor; congruence. Qed.
+
+  Lemma UFrame_upd_calls s v : UFrame s (upd_calls s v).
+  Proof. constructor; reflexivity. Qed.
+  Lemma UFrame_upd_slots s v : UFrame s (upd_slots s v).
+  Proof. constructor; reflexivity. Qed.
+  Lemma UFrame_upd_cancels s v : UFrame s (upd_cancels s v).
+  Proof. constructor; reflexivity. Qed.
+  Lemma UFrame_upd_q s p q w c : UFrame s (upd_q s p q w c).
+  Proof. constructor; reflexivity. Qed.
+  Lemma UFrame_upd_misc s n h t : UFrame s (upd_misc s n h t).
+  Proof. constructor; reflexivity. Qed.
+  Lemma UFrame_set_phase s i p : UFrame s (set_phase s i p).
+  Proof. unfold set_phase. destruct (nth_error _ _); [apply UFrame_upd_calls|apply UFrame_refl]. Qed.
+  Lemma UFrame_set_slot s id x : UFrame s (set_slot s id x).
+  Proof. apply UFrame_upd_slots. Qed.
+  Lemma UFrame_slot_tx_drop s id : UFrame s (slot_tx_drop s id).
+  Proof. apply UFrame_set_slot. Qed.
+  Lemma UFrame_slot_rx_close s id : UFrame s (slot_rx_close s id).
+  Proof. apply UFrame_set_slot. Qed.
+  Lemma UFrame_push_cancel s id : UFrame s (push_cancel s id).
+  Proof. unfold push_cancel. destruct (dropped s); [apply UFrame_refl|apply UFrame_upd_cancels]. Qed.
+  Lemma UFrame_release_permit s : UFrame s (release_permit s).
+  Proof.
+    unfold release_permit. destruct (waiters s); [apply UFrame_upd_q|].
+    eapply UFrame_trans; [apply UFrame_upd_q|apply UFrame_set_phase].
+  Qed.
+  Lemma UFrame_with_id s i c id : UFrame s (with_id s i c id).
+  Proof. apply UFrame_upd_calls. Qed.
+  Lemma UFrame_fail_shutdown s i id : UFrame s (snd (fail_shutdown s i id)).
+  Proof.
+    unfold fail_shutdown. cbn [snd].
+    eapply UFrame_trans; [apply UFrame_slot_tx_drop|].
+    eapply UFrame_trans; [apply UFrame_slot_rx_close|].
+    eapply UFrame_trans; [apply UFrame_push_cancel|apply UFrame_set_phase].
+  Qed.
+  Lemma UFrame_poll_slot s i id : UFrame s (snd (poll_slot s i id)).
+  Proof.
+    unfold poll_slot. destruct (sl_val _); cbn [snd].
+    - eapply UFrame_trans; [apply UFrame_slot_rx_close|apply UFrame_set_phase].
+    - destruct (sl_tx_gone _); cbn [snd]; [|apply UFrame_refl].
+      eapply UFrame_trans; [apply UFrame_slot_rx_close|apply UFrame_set_phase].
+  Qed.
+  Lemma UFrame_enqueue s i c id tc : UFrame s (snd (enqueue s i c id tc)).
+  Proof.
+    unfold enqueue. eapply UFrame_trans; [apply UFrame_upd_q|].
+    eapply UFrame_trans; [apply UFrame_set_phase|apply UFrame_poll_slot].
+  Qed.
+  Lemma UFrame_poll_call s i : UFrame s (snd (poll_call s i)).
+  Proof.
+    unfold poll_call. destruct (nth_error (calls s) i) as [c|]; [|apply UFrame_refl].
+    destruct (c_phase c); try apply UFrame_refl.
+    - set (s1 := set_slot _ _ _).
+      assert (F1 : UFrame s s1).
+      { unfold s1. eapply UFrame_trans; [apply UFrame_upd_misc|].
+        eapply UFrame_trans; [apply UFrame_with_id|apply UFrame_set_slot]. }
+      destruct (rx_closed s1).
+      + eapply UFrame_trans; [exact F1|apply UFrame_fail_shutdown].
+      + destruct (permits s1).
+        * cbn [snd]. eapply UFrame_trans; [exact F1|].
+          eapply UFrame_trans; [apply UFrame_upd_q|apply UFrame_set_phase].
+        * eapply UFrame_trans; [exact F1|].
+          eapply UFrame_trans; [apply UFrame_upd_q|apply UFrame_enqueue].
+    - destruct (rx_closed s).
+      + eapply UFrame_trans; [apply UFrame_upd_q|apply UFrame_fail_shutdown].
+      + apply UFrame_enqueue.
+    - apply UFrame_fail_shutdown.
+    - apply UFrame_poll_slot.
+  Qed.
+  Lemma UFrame_guard_close s i : UFrame s (guard_close s i).
+  Proof.
+    unfold guard_close. destruct (nth_error (calls s) i) as [c|]; [|apply UFrame_refl].
+    destruct (c_phase c); try apply UFrame_refl.
+    - apply UFrame_set_phase.
+    - eapply UFrame_trans; [apply UFrame_upd_q|].
+      eapply UFrame_trans; [apply UFrame_slot_tx_drop|].
+      eapply UFrame_trans; [apply UFrame_slot_rx_close|apply UFrame_set_phase].
+    - eapply UFrame_trans; [apply UFrame_set_phase|].
+      eapply UFrame_trans; [|eapply UFrame_trans; [apply UFrame_slot_tx_drop|apply UFrame_slot_rx_close]].
+      destruct (rx_closed _); [apply UFrame_upd_q|apply UFrame_release_permit].
+    - eapply UFrame_trans; [apply UFrame_slot_tx_drop|].
+      eapply UFrame_trans; [apply UFrame_slot_rx_close|apply UFrame_set_phase].
+    - eapply UFrame_trans; [apply UFrame_slot_rx_close|apply UFrame_set_phase].
+  Qed.
+  Lemma UFrame_guard_cancel s i : UFrame s (guard_cancel s i).
+  Proof.
+    unfold guard_cancel. destruct (nth_error (calls s) i) as [c|]; [|apply UFrame_refl].
+    destruct (c_phase c); try apply UFrame_refl.
+    eapply UFrame_trans; [apply UFrame_push_cancel|apply UFrame_set_phase].
+  Qed.
+
+  Variable fuel_of : cstate -> nat.
+  Lemma UFrame_step s o s' os :
+    step tp fuel_of s o = (s', os) -> o <> PollDispatch -> o <> DropDispatch -> UFrame s s'.
+  Proof.
+    destruct o; cbn [step]; intros H N1 N2; try congruence.
+    - injection H as <- _. destruct (nth_error _ _) as [[|]|]; try apply UFrame_refl.
+      apply UFrame_upd_misc.
+    - injection H as <- _. destruct (nth_error _ _) as [[|]|]; try apply UFrame_refl.
+      apply UFrame_upd_misc.
+    - injection H as <- _. apply UFrame_upd_calls.
+    - pose proof (UFrame_poll_call s i) as F. destruct (poll_call s i) as [r s1].
+      injection H as <- _. exact F.
+    - injection H as <- _. destruct (option_map _ _) as [[]|];
+        try (eapply UFrame_trans; [apply UFrame_guard_close|apply UFrame_guard_cancel]).
+      apply UFrame_refl.
+    - injection H as <- _. destruct (option_map _ _) as [[]|]; try apply UFrame_guard_close.
+      apply UFrame_refl.
+    - injection H as <- _. apply UFrame_guard_cancel.
+    - injection H as <- _. apply UFrame_upd_misc.
+    - injection H as <- _. constructor; reflexivity.
+  Qed.
 End Frames.
 
 Arguments pcast {A B} r.
